@@ -48,6 +48,12 @@ CertBlockEnd / Manifest / ManifestCrc / VerifySigV21 / CheckDigest -> Accept wit
       deterministically in both tiers; every exported image is walked and decided by TLC like any other image (certificate block
       v1: Sig1OK demands header length = signed length).  The register of the real block object is read in front of every
       export only to confirm that the planned class was reached.
+ Strengthening round (seed C02-m13): WHO CHOOSES THE COUNTER START of an encrypted image is a class of the ctr special (MbiRomMC:
+      SpCtr, cls "drawn"): the image is built by the class constructor from the members of the case with the optional
+      ctr_init_vector left out, so SPSDK draws the value itself.  Built in every encrypted composition with and without a key
+      store, exported once and twice, deterministically in both tiers; the ROM model decrypts with the value it finds in the image
+      (DecOK, decided by TLC like any other image).  The object is looked at in front of the export only to confirm that it holds
+      no counter start of anybody's choice.
 """
 import json
 import os
@@ -342,6 +348,11 @@ def make_cases(comps, tier, r, gen):
                 add(comp, r.choice(mems), special=sp, len=r.choice([64, 65, 72, 300]) if sp["cut"] <= 64 else sp["cut"] + r.choice([0, 1, 300]))
             elif sp["what"] == "mancrc":  # no ISK: its ECDSA signature (fresh per export) lies inside the CRC range
                 add(comp, r.choice(mems), special=sp, len=r.choice([56, 64, 100, 300]), **cheap(no_isk=True))
+            elif sp["what"] == "ctr" and sp["cls"] == "drawn":  # nobody names a counter start: class constructor without ctr_init_vector
+                for ks in (False, True):
+                    for route in ("api", "api2"):
+                        add(comp, r.choice(mems), special=sp, iv=None, ctor=True, ks=ks, len=r.choice([64, 65, 300, 1024, 4100]), **cheap())
+                        cases[-1]["route"] = route
             elif sp["what"] == "ctr":
                 for ks in (False, True):
                     add(comp, r.choice(mems), special=sp, iv=iv_of(sp["cls"], r), ks=ks, len=r.choice([64, 65, 300, 1024, 4100]), **cheap())
@@ -417,6 +428,21 @@ def class_route(mbi0, case, v, family):
         raise Machinery(f"class route: {type(mbi0).__name__} has no member cert_block")
     kw.update(cert_block=cb, family=mbi0.family, revision=mbi0.revision)
     return type(mbi0)(**kw)
+
+
+def ctor_route(mbi0, leave_out):
+    """The class constructor with the members a configuration-loaded object of the same case carries, the optional ones named in
+    leave_out not handed over (the class default stands). Returns (object, {member: value in front of any export})."""
+    kw = {}
+    for base in type(mbi0).__mro__:
+        for name in getattr(base, "NEEDED_MEMBERS", {}):
+            if name not in leave_out:
+                kw[name] = getattr(mbi0, name)
+    if not all(hasattr(type(mbi0), name) for name in leave_out):
+        raise Machinery(f"constructor route: {type(mbi0).__name__} has no class default for {leave_out}")
+    kw.update(family=mbi0.family, revision=mbi0.revision)
+    mbi = type(mbi0)(**kw)
+    return mbi, {name: vars(mbi).get(name, getattr(type(mbi0), name)) for name in leave_out}
 
 
 def set_signer(cfg, be, role, key_file, plain_key):
@@ -619,6 +645,10 @@ def build_once(case, comp, d, patch):
         mbi.load_from_config(cfg, search_paths=[d])
         if case.get("udr", "cfg") != "cfg":
             mbi = class_route(mbi, case, case["v21"], case["family"] if case["udr"] == "class_family" else None)
+        drawn = None
+        if case.get("ctor"):
+            mbi, held = ctor_route(mbi, ("_ctr_init_vector",))
+            drawn = held["_ctr_init_vector"] is None  # nobody has chosen a counter start for this object
         data = mbi.export()
         if case.get("route") == "api2":  # the same object exported a second time: that image has to boot as well
             data = mbi.export()
@@ -629,6 +659,8 @@ def build_once(case, comp, d, patch):
     if comp["type"] == 3:
         sec["plain"] = R.mask_rom_words(payload) + tz_data
     info = {"cfg": cfg, "pay": len(payload)}
+    if case.get("ctor"):
+        info["drawn"] = drawn
     if case.get("be"):
         info["be_reached"] = be_reached(case["be"], comp["cb"], signers, mbi_sigprov.take_calls())
     return data, rom, sec, info
@@ -702,7 +734,9 @@ def run_case(job):
         res["be_reached"] = _info.get("be_reached")
     sp = case.get("special")
     if sp:  # did the exported image really reach the class TLC planned? (measured by the executor on the real bytes)
-        if sp["what"] == "ctr":
+        if sp["what"] == "ctr" and sp["cls"] == "drawn":
+            res["reached"] = bool(_info.get("drawn")) and any(e["ev"] == "Decrypt" and e.get("rd") for e in ev)
+        elif sp["what"] == "ctr":
             res["reached"] = any(e["ev"] == "Decrypt" and e.get("ivClass") == sp["cls"] for e in ev)
         else:
             name = "CheckCrc" if sp["what"] == "crc" else "ManifestCrc"
@@ -1406,7 +1440,7 @@ def run(tier):
         "HW-key flag, versions, sub-type, load address, counter IV) + the lanes TLC plans in the GEN run, built for every composition they apply "
         "to: payload lengths 0x38 / 0x3C / 64 (HMAC compositions: x relocation table x key store x TrustZone mode) and the special value classes "
         "of chained computations (running / final image CRC and manifest CRC = 0 / FFFFFFFF at offsets 0x20, 0x24, 0x28, 0x30, 0x34, 0x38, 0x40 "
-        "(thorough: + 0x200, 0x400, 0x1000) and at the end, reached by a payload word solved over GF(2); AES-CTR counter start 0 / all ones / low 32 / low 64 bits all ones) "
+        "(thorough: + 0x200, 0x400, 0x1000) and at the end, reached by a payload word solved over GF(2); AES-CTR counter start 0 / all ones / low 32 / low 64 bits all ones / drawn by SPSDK: class constructor without ctr_init_vector, exported once and twice) "
         "and the SIGNING BACK ENDS (who produces the image signature x who produces the ISK certificate signature: key file, signProvider type=file, "
         "the same with der_format=true, a plug-in SignatureProvider subclass of the minimal interface delivering r || s / ASN.1 DER / DER of a signature "
         "with a leading zero byte in r or s; every pair x P-256 / P-384 root x no ISK / P-256 / P-384 ISK for certificate block v2.1, every back end x "
